@@ -34,7 +34,7 @@ func (m *c14Model) fieldInits(f *types.Var) []c14Init {
 			case *ast.FuncLit:
 				return false
 			case *ast.CompositeLit:
-				if t := info.TypeOf(x); t == nil || namedPath(t) != namedPath(m.named) {
+				if t := info.TypeOf(x); t == nil || m.fieldOwner[f] == nil || namedPath(t) != namedPath(m.fieldOwner[f]) {
 					return true
 				}
 				for _, el := range x.Elts {
